@@ -16,7 +16,11 @@ whatever it passes the event to) never mentions `payload`; its other arguments m
 pre_type uses the payload-pointer forms of the core (PAYLOAD_PTRS): &payload->jumbo.data[i] is a byte offset,
 memcpy(&local, p, sizeof local) and memchr(p, c, n) ==/!= NULL are explicit bounds-checked reads, and a payload
 pointer handed to an untranslated callee requires a NUL at or after it inside the payload.
-NOT covered: the table-driven `simple` handlers (no payload), every other model's handlers.
+Second output coq/Gen/FootAll_gen.v (UNITS_ALL, same mode, per-file prefixes and constants): the dispatch code of the
+other models: model_<m>_event, process_ev and, where present, simple() / context_switch() of nosv, nanos6, nodes, mpi,
+tampi, openmp and kernel /event.c.  process_ev of nosv / nanos6 calls the pre_task / pre_type generated above; the
+static tables ss_table / fn_table are arbitrary rows of FootPre.v (opq_row).  Foot_gen.v is not changed by it.
+NOT covered: ev_spec.c print_arg, ovnidump, ovnisort's copies, parson.
 `G` (translate/gen.py) is injected by the plug-in loader.
 """
 import importlib.util
@@ -41,6 +45,18 @@ UNITS = [
         ("pre_type", "action")]),
 ]
 PREFIX = {"src/emu/nosv/event.c": "nosv_", "src/emu/nanos6/event.c": "nanos6_"}
+# second file, coq/Gen/FootAll_gen.v: the dispatch code of the other models and of nosv / nanos6 (the functions unit
+# dispatch renders in normal mode), in havoc mode; pre_task / pre_type of nosv / nanos6 are the functions of Foot_gen.v
+UNITS_ALL = [
+    ("src/emu/nosv/event.c", [("simple", "action"), ("process_ev", "action"), ("model_nosv_event", "action")]),
+    ("src/emu/nanos6/event.c", [("simple", "action"), ("process_ev", "action"), ("model_nanos6_event", "action")]),
+    ("src/emu/nodes/event.c", [("simple", "action"), ("process_ev", "action"), ("model_nodes_event", "action")]),
+    ("src/emu/mpi/event.c", [("process_ev", "action"), ("model_mpi_event", "action")]),
+    ("src/emu/tampi/event.c", [("process_ev", "action"), ("model_tampi_event", "action")]),
+    ("src/emu/openmp/event.c", [("process_ev", "action"), ("model_openmp_event", "action")]),
+    ("src/emu/kernel/event.c", [("context_switch", "action"), ("process_ev", "action"), ("model_kernel_event", "action")]),
+]
+PREFIX_ALL = {"src/emu/%s/event.c" % m: m + "_" for m in ("nosv", "nanos6", "nodes", "mpi", "tampi", "openmp", "kernel")}
 
 
 def gen(work):
@@ -66,4 +82,15 @@ def gen(work):
         "From OV Require Import Base.CInt Emu.FootPre.\n" \
         "Import ListNotations.\nLocal Open Scope Z_scope.\n\n" \
         "(* enum constants, evaluated by the compiler *)\n" + ctext + "\n" + "\n".join(defs)
-    return {"Foot_gen.v": text}
+    # ---- the other models
+    S.PRIM_ACTION = {"pre_task", "pre_type"}
+    S.PREFIXED_PRIMS = {"pre_task", "pre_type"}
+    S.PREFIX_CONSTS = True
+    S.TABLES = {"ss_table", "fn_table"}
+    ctext2, defs2 = S.translate_files(work, UNITS_ALL, prefixes=PREFIX_ALL)
+    text2 = (G.HEADER % "src/emu/{nosv,nanos6,nodes,mpi,tampi,openmp,kernel}/event.c (unit footprint, dispatch code)") + \
+        "From Coq Require Import ZArith List Bool.\n" \
+        "From OV Require Import Base.CInt Emu.FootPre Gen.Foot_gen.\n" \
+        "Import ListNotations.\nLocal Open Scope Z_scope.\n\n" \
+        "(* enum constants, evaluated by the compiler *)\n" + ctext2 + "\n" + "\n".join(defs2)
+    return {"Foot_gen.v": text, "FootAll_gen.v": text2}
